@@ -162,6 +162,5 @@ func scratchDir() string {
 	return d
 }
 
-func cmdCheck(args []string)    { fmt.Println("not implemented"); os.Exit(2) }
 func cmdReplay(args []string)   { fmt.Println("not implemented"); os.Exit(2) }
 func cmdSelftest(args []string) { fmt.Println("not implemented"); os.Exit(2) }
